@@ -23,7 +23,7 @@ func bigPow2(n uint) *big.Int { return new(big.Int).Lsh(big.NewInt(1), n) }
 // huge (up to 2^200) powers. Keys are vcrypto keys of the id.
 func Entries(t *rapid.T, label string, minN, maxN int) TableSpec {
 	n := rapid.IntRange(minN, maxN).Draw(t, label+".n")
-	kind := rapid.SampledFrom([]string{"uniform", "uniform", "skewed", "whale", "dust", "huge", "random"}).Draw(t, label+".kind")
+	kind := rapid.SampledFrom([]string{"uniform", "uniform", "skewed", "whale", "dust", "huge", "random", "bits", "bits-dominant"}).Draw(t, label+".kind")
 	idBase := rapid.Uint64Range(1, 1000).Draw(t, label+".idbase")
 	ids := make([]uint64, 0, n)
 	seen := map[uint64]bool{}
@@ -64,6 +64,15 @@ func Entries(t *rapid.T, label string, minN, maxN int) TableSpec {
 		case "huge":
 			p = bigPow2(uint(rapid.IntRange(60, 200).Draw(t, label+".huge")))
 			p.Add(p, big.NewInt(int64(rapid.IntRange(0, 1000).Draw(t, label+".hugeadd"))))
+		case "bits", "bits-dominant":
+			// a power of every magnitude: the bit length is drawn (with extra weight on machine
+			// word boundaries), the lower bits are random; "bits-dominant" has one such member
+			// and small ones around it, so that the table's total has that bit length too
+			if kind == "bits-dominant" && i > 0 {
+				p = big.NewInt(int64(rapid.IntRange(1, 1<<20).Draw(t, label+".small")))
+				break
+			}
+			p = BitsPower(t, label+".bits")
 		default:
 			p = big.NewInt(rapid.Int64Range(1, 1<<40).Draw(t, label+".rnd"))
 		}
@@ -71,6 +80,26 @@ func Entries(t *rapid.T, label string, minN, maxN int) TableSpec {
 	}
 	sort.Sort(entries)
 	return TableSpec{Kind: kind, Entries: entries}
+}
+
+// BitsPower draws a positive integer whose bit length is uniform over 1..130 or
+// sits next to a machine-word boundary (15..17, 31..33, 46..49, 62..65, 127..129).
+func BitsPower(t *rapid.T, label string) *big.Int {
+	var b int
+	if rapid.Bool().Draw(t, label+".edge") {
+		b = rapid.SampledFrom([]int{15, 16, 17, 31, 32, 33, 46, 47, 48, 49, 62, 63, 64, 65, 127, 128, 129}).Draw(t, label+".edgelen")
+	} else {
+		b = rapid.IntRange(1, 130).Draw(t, label+".len")
+	}
+	p := bigPow2(uint(b - 1))
+	low := new(big.Int).SetUint64(rapid.Uint64().Draw(t, label+".low"))
+	if rapid.IntRange(0, 3).Draw(t, label+".allones") == 0 {
+		low.SetUint64(^uint64(0))
+	}
+	if b-1 < 64 {
+		low.And(low, new(big.Int).Sub(bigPow2(uint(b-1)), big.NewInt(1)))
+	}
+	return p.Or(p, low)
 }
 
 // Table builds a gpbft.PowerTable from entries through the public API.
